@@ -270,7 +270,7 @@ func drawC15(t *rapid.T) C15Case {
 func TestC15(t *testing.T) {
 	rec := obs.New("C15")
 	defer rec.Flush(true)
-	rec.SetExtra("rule", "rapid block texts generated from the documented grammar restricted to the printable domain the property names (strings without quote / backslash / newline, non-negative integer literals, dates 1970-9999 at second granularity written in UTC, sets of non-string elements, no parameters), with random layout, expressions by precedence level with explicit parentheses and method calls; the parsed block is placed in a token at position 0-3 among other generated blocks (position 0 = authority, then with at most one fact, one rule and one check), optionally sealed. Oracle: every element line of Code()[k-1] (or the facts / rules / checks fields of the authority section of String()) parses back, and the concatenation equals the original parse structurally (sets as sets, dates as instants); String() and Code() are identical before and after serialize+unmarshal and never panic. Non-trivial = the block has an expression with two precedence levels, a method call or a grouping, a set or a date; distinct by (position, printed text).")
+	rec.SetExtra("rule", "rapid block texts generated from the documented grammar restricted to the printable domain the property names (strings without quote / backslash / newline, non-negative integer literals, dates 1970-9999 at second granularity written in UTC, sets of non-string elements which may repeat an element, no parameters; literal values drawn at random besides boundary pools), with random layout, expressions by precedence level with explicit parentheses and method calls; the parsed block is placed in a token at position 0-3 among other generated blocks (position 0 = authority, then with at most one fact, one rule and one check), optionally sealed. Oracle: every element line of Code()[k-1] (or the facts / rules / checks fields of the authority section of String()) parses back, and the concatenation equals the original parse structurally (sets as sets, dates as instants); String() and Code() are identical before and after serialize+unmarshal and never panic. Non-trivial = the block has an expression with two precedence levels, a method call or a grouping, a set or a date; distinct by (position, printed text).")
 	rec.SetExtra("assumptions", []string{"Code() prints later blocks only, one element per line; sets of strings print as symbol indexes and are outside the property's printable domain"})
 	harness.RunWith(t, harness.Spec[C15Case]{ID: "C15", Draw: drawC15, Check: checkC15}, rec)
 }
